@@ -166,6 +166,12 @@ def run_property(prop: str, tier: str = "quick", replay: Optional[str] = None, t
             limits.append("%s: no path of the function reaches a normal return (vacuous verification?)" % q)
         functions[-1]["normal_return_paths"] = res.normal_paths
         functions[-1]["raising_paths"] = res.raising_paths
+        if res.skipped_instances:
+            # finite-instantiation instances outside the domain (contradicting the receiver's class invariant / the
+            # precondition): not verified, not counted - listed
+            functions[-1]["instances_outside_domain"] = res.skipped_instances
+            if len(res.skipped_instances) >= res.instances:
+                limits.append("%s: every instance is outside the domain (contradictory entry assumptions)" % q)
         all_obs.extend(res.obligations)
         limits.extend("%s: %s" % (q, l) for l in res.limits)
         path_guards.extend(res.guards)
